@@ -202,6 +202,20 @@ def validate_cases(module, cases, cfg=None, chunks=None, timeout=3600, key="id",
     with cf.ThreadPoolExecutor(max_workers=len(files)) as ex:
         results = list(ex.map(one, files))
     for f, r in zip(files, results):
+        if r["error"] == "tlc-error" and _shape_error(r):
+            # The specification could not even be EVALUATED on some record of this chunk because a recorded output does not
+            # have the shape the specification indexes (a sequence too short, a missing component).  The chunk is bisected
+            # and exactly those records are rejected ("output-not-of-the-documented-shape"); every other record is decided as
+            # usual.  Any other TLC error (parse error, overflow, timeout) stays a machinery failure.
+            with open(f) as fh:
+                part = json.load(fh)
+            ok_recs, bad = _isolate(module, cfg, part, d, env, timeout, heap)
+            gen += len(part); dist += len(part)
+            for rec in ok_recs:
+                verdicts[rec["id"]] = rec
+            for cid, msg in bad:
+                verdicts[cid] = {"k": "V", "id": cid, "v": ["rejected", "output-not-of-the-documented-shape"], "ctx": {"tlc": msg[:200]}}
+            continue
         if r["error"]:
             raise Machinery("TLC failed on %s (%s):\n%s" % (module, r["error"], tlc_error_excerpt(r)))
         gen += r["generated"]
@@ -214,6 +228,36 @@ def validate_cases(module, cases, cfg=None, chunks=None, timeout=3600, key="id",
         raise Machinery("%d cases without verdict from %s, e.g. %s" % (len(missing), module, missing[:3]))
     shutil.rmtree(d, ignore_errors=True)
     return verdicts, {"generated": gen, "distinct": dist, "wall_s": time.time() - t0, "chunks": len(files)}
+
+
+_SHAPE_MARKERS = ("which is not in the domain of the function", "Attempted to apply function", "Attempted to access index", "Attempted to select field",
+                  "Attempted to apply the operator", "out of bounds", "nonexistent field", "Attempted to compute Len", "applying to the tuple", "Attempted to select nonexistent")
+
+
+def _shape_error(res):
+    out = res.get("stdout", "")
+    return any(m in out for m in _SHAPE_MARKERS) and "Overflow" not in out and "***Parse Error***" not in out
+
+
+def _isolate(module, cfg, part, d, env, timeout, heap, depth=0):
+    """Bisection of a chunk on which TLC raised a shape error: returns (verdict records of evaluable cases, [(id, message)])."""
+    f = os.path.join(d, "iso-%d-%d.json" % (depth, abs(hash(tuple(c["id"] for c in part))) % 10 ** 9))
+    with open(f, "w") as fh:
+        json.dump(part, fh)
+    e = dict(env or {})
+    e["TRACE_FILE"] = f
+    r = run_tlc(module, cfg=cfg, env=e, workers=1, timeout=timeout, heap=heap)
+    if not r["error"]:
+        return [rec for rec in r["records"] if isinstance(rec, dict) and rec.get("k") == "V"], []
+    if r["error"] != "tlc-error" or not _shape_error(r):
+        raise Machinery("TLC failed on %s (%s):\n%s" % (module, r["error"], tlc_error_excerpt(r)))
+    if len(part) == 1:
+        lines = [l for l in r["stdout"].splitlines() if any(m in l for m in _SHAPE_MARKERS)]
+        return [], [(part[0]["id"], lines[0] if lines else "evaluation error")]
+    h = len(part) // 2
+    a, ba = _isolate(module, cfg, part[:h], d, env, timeout, heap, depth + 1)
+    b, bb = _isolate(module, cfg, part[h:], d, env, timeout, heap, depth + 1)
+    return a + b, ba + bb
 
 
 # ---------------------------------------------------------------------------------------
